@@ -337,6 +337,33 @@ MANIFEST_TEXT["C06"] = {
     "design_ref": "DESIGN.md section 3 / C06",
 }
 
+PLAN["C07"] = {
+    "pkg": "c07",
+    "tests": [
+        {"name": "TestRouting", "quick": (80000, 8), "thorough": (6000000, 16)},
+    ],
+    "budget": {"quick": 600, "thorough": 5400},
+    "rule": "one-router flows (nodes after the router only send messages, so the router's context is still the context after the sprint): "
+            "switch routers with 0-6 cases over 31 (test, arguments) shapes of the registered tests (literal arguments, expressions over "
+            "stable context, arguments that error, translated / wrong-length / empty translations), shared categories and shared exits, "
+            "with/without default, result name, msg wait and timeout; random routers with 1-6 categories under a pinned random source; "
+            "router-less nodes with 1-3 exits; operands over input/fields/globals/trigger params/errors; 25 inputs aimed at the cases. "
+            "Oracle: an independent reference router (operand and language-resolved arguments evaluated with the public evaluator, cases "
+            "walked in order calling the registered test, errors skip, first truthy wins, else default, else no category; timeout -> "
+            "timeout category; random -> floor(r*n) from a twin random source) must agree on step exit, segment (exit, destination, "
+            "operand), saved result (category name, value = match or operand for default truncated to MaxResultChars, input = operand) "
+            "and on 'no category => failed run, failure event, no exit'. Non-trivial = >= 2 cases with a match, default, timeout, random "
+            "or no-category path; distinct by full case.",
+    "assumptions": COMMON_ASSUMPTIONS + ["the reference router shares the individual test functions (cases.XTESTS) with the implementation on purpose; ordering, default handling, error skipping, category->exit mapping and result construction are independent",
+                                         "values matched by has_date* tests are clock-dependent and only their category/exit is compared"],
+}
+MANIFEST_TEXT["C07"] = {
+    "technique": "property-based testing (rapid): generated routers/operands/inputs executed through the engine and compared with an independent reference router written from the property statement",
+    "level_text": "Exploration: the engine agreed with the reference router on exit, segment and saved result for every generated router and input.",
+    "level_note": "Trusts the public evaluator and the registered test functions as building blocks of the reference model.",
+    "design_ref": "DESIGN.md section 3 / C07",
+}
+
 # every property without a registered check is listed here with the reason (kept current as checks are added)
 NOT_APPLICABLE = [{"property_id": pid, "reason": "check not built yet in this round (planned in DESIGN.md); nothing is claimed for it"}
                   for pid in ALL_IDS if pid not in PLAN]
